@@ -140,6 +140,11 @@ pub struct TReport {
   pub preemptions: u64,
   pub multi_choice: u64,
   pub window_hits: u64,
+  /// pool tasks that had not finished when the pool was shut down (100 virtual
+  /// ms after the last caller thread returned)
+  pub leftover_tasks: usize,
+  /// virtual time at which every caller thread had returned
+  pub users_done_at: Option<u64>,
 }
 
 thread_local! {
@@ -655,6 +660,8 @@ impl TSim {
       preemptions: st.preemptions,
       multi_choice: st.multi_choice,
       window_hits: st.window_hits,
+      leftover_tasks: leftovers.len(),
+      users_done_at: st.users_done_at,
     };
     drop(st);
     drop(leftovers);
